@@ -10,9 +10,7 @@ def plan(tier, seed):
     k1 = [H("c04::k1_%s_4" % t, "parse+parse_partial::<%s> vs reference scan, arbitrary bytes" % t, "len<=4, all 256 byte values") for t in INT_TYPES + PTR_TYPES]
     swar = [H("c04::swar::swar4_r10", "is_4digits/parse_4digits", "all 2^32 words")]
     if tier == "quick":
-        k2 = [H("c04::k2_u8_5", "overflow frontier u8: [sign]digits + one arbitrary byte", "len<=5"),
-              H("c04::k2w_u32", "overflow-frontier window around u32::MAX", "z<=2 zeros + '4294' + 5..7 symbolic digits"),
-              H("c04::k2w_i32", "overflow-frontier window around i32::MAX/MIN", "sign + z<=2 zeros + '2147' + 5..7 symbolic digits")]
+        k2 = [H("c04::k2_u8_5", "overflow frontier u8: [sign]digits + one arbitrary byte", "len<=5")]
         groups.append(KGroup("D", k1 + swar + k2, timeout=900, jobs=16, mem_gb=8))
         radix = [H("c04::radix::k4_u8_r2_9", "radix 2, u8", "len<=9"), H("c04::radix::k4_u16_r16_5", "radix 16, u16", "len<=5"),
                  H("c04::radix::generic::k4_u8_r36", "radix 36, u8 (letters in both cases)", "len<=4"),
